@@ -1,12 +1,12 @@
 (* Property C13 — malformed input is rejected, never crashes, never hangs, never alters earlier
    well-formed entries. Statements only; proofs in Proofs/AmmoSafetyProofs.v,
-   Proofs/AmmoPrefixProofs.v, Proofs/AmmoRobustProofs.v. Every theorem about a decoder
+   Proofs/AmmoPrefixProofs.v, Proofs/AmmoRobustProofs.v, Proofs/AmmoConfigInputProofs.v. Every theorem about a decoder
    quantifies over ALL byte strings (no well-formedness hypothesis) and over the third-party
    parser oracles. *)
 From Coq Require Import List NArith ZArith Bool.
 From PV Require Import Lib.AmmoBytes Lib.AmmoDecimal Lib.AmmoLines Model.AmmoCommon Model.AmmoUri
-  Model.AmmoUripost Model.AmmoRaw Model.AmmoJson Model.AmmoRobust
-  Proofs.AmmoSafetyProofs Proofs.AmmoPrefixProofs Proofs.AmmoRobustProofs.
+  Model.AmmoUripost Model.AmmoRaw Model.AmmoJson Model.AmmoRobust Model.AmmoConfigInput
+  Proofs.AmmoSafetyProofs Proofs.AmmoPrefixProofs Proofs.AmmoRobustProofs Proofs.AmmoConfigInputProofs.
 Import ListNotations.
 
 (* [bad r] = the Scan ended in a panic or ran out of fuel. The fuel of every loop is linear
@@ -166,6 +166,85 @@ Proof.
   apply grpc_run_no_spin.
 Qed.
 Print Assumptions C13_grpcjson_no_spin.
+
+(* ---------- the `headers` list of the http provider config ----------
+   [wf_header_entry h]: h = "[" k ":" v "]" with no colon in k and a name k that is not blank (the
+   documented form).  DecodeHeader accepts exactly these; the executable specification used by
+   the correspondence run ([header_entry_okb], written from the text with cut/trim) says the same. *)
+Theorem C13_config_header_entry_spec :
+  forall h, (header_entry_okb h = true <-> wf_header_entry h) /\
+            ((exists kv, decode_header h = inl kv) <-> wf_header_entry h).
+Proof. intros h. split; [apply header_entry_okb_iff|apply decode_header_accepts_iff]. Qed.
+Print Assumptions C13_config_header_entry_spec.
+
+(* a malformed entry is rejected with an error at ANY position of the list: after any number of
+   well-formed entries, before any entries at all (these cannot overwrite the error); the error is
+   that of the first malformed entry *)
+Theorem C13_config_headers_rejected_at_any_position :
+  forall (a : list bytes) (bad : bytes) (b : list bytes) acc,
+    Forall wf_header_entry a -> ~ wf_header_entry bad ->
+    exists e, decode_header bad = inr e /\ config_headers (a ++ bad :: b) acc = inr e.
+Proof. exact config_headers_rejects_at. Qed.
+Print Assumptions C13_config_headers_rejected_at_any_position.
+
+(* the list is accepted exactly when every entry is well-formed; provider construction fails
+   exactly when the executable specification rejects the list *)
+Theorem C13_config_headers_accepted_iff_all_wellformed :
+  forall hs acc url_host,
+    ((exists m, config_headers hs acc = inl m) <-> Forall wf_header_entry hs) /\
+    (provider_new_headers url_host hs = NewErr <-> header_list_okb hs = false).
+Proof. intros. split; [apply config_headers_ok_iff|apply provider_new_headers_spec]. Qed.
+Print Assumptions C13_config_headers_accepted_iff_all_wellformed.
+
+(* an accepted list loses no entry: the value of every entry is among the values of its key *)
+Theorem C13_config_headers_none_lost :
+  forall hs m, config_headers hs [] = inl m ->
+    forall h k v, In h hs -> decode_header h = inl (k, v) ->
+      exists vs, In (canon_key k, vs) m /\ In v vs.
+Proof. exact config_headers_none_lost. Qed.
+Print Assumptions C13_config_headers_none_lost.
+
+(* ---------- the scenario description file: every format validates the weights ----------
+   ReadAmmoConfig dispatches on the extension; the HCL path (ParseHCLFile, ConvertHCLToAmmo) and
+   the YAML path (ParseAmmoConfig) both end in DecodeMap: a negative weight is an error for
+   .hcl, .yaml and .yml alike (any other extension is an error anyway) *)
+Theorem C13_negative_weight_rejected_in_every_format :
+  forall f ws, (exists w, In w ws /\ (w < 0)%Z) -> scenario_weights f ws = VErr.
+Proof. exact scenario_weights_negative. Qed.
+Print Assumptions C13_negative_weight_rejected_in_every_format.
+
+Theorem C13_scenario_file_panic_only_if_huge :
+  forall f ws, scenario_weights f ws = VPanic ->
+    exists g cs, (0 < g)%Z /\ Forall (fun c => (0 <= c)%Z) cs /\ (max_alloc < 8 * fold_left Z.add cs 0)%Z.
+Proof. exact scenario_weights_panic. Qed.
+Print Assumptions C13_scenario_file_panic_only_if_huge.
+
+(* the validation is what keeps SpreadNames / decodeAmmo safe: without it the statement is false
+   (weights -3 and 1: total -2, makeslice panics) *)
+Theorem C13_unvalidated_weights_refuted :
+  exists ws, spread_raw ws = VPanic /\ (length ws <= 2)%nat /\ Forall (fun w => (-3 <= w <= 1)%Z) ws.
+Proof.
+  exists [(-3)%Z; 1%Z]. split; [vm_compute; reflexivity|]. split; [cbn; auto|].
+  repeat constructor; cbv; discriminate.
+Qed.
+Print Assumptions C13_unvalidated_weights_refuted.
+
+(* non-vacuity of the hypotheses above, evaluated in the model *)
+Example C13_config_examples :
+  (* "[Host: a]" "[X b]" "[Y: c]": the middle entry has no colon: an error although a well-formed entry follows *)
+  config_headers [[91;72;111;115;116;58;32;97;93]; [91;88;32;98;93]; [91;89;58;32;99;93]]%N [] = inr EHeaderFormat /\
+  header_list_okb [[91;72;111;115;116;58;32;97;93]; [91;88;32;98;93]; [91;89;58;32;99;93]]%N = false /\
+  (* "[x-a: 1]" "[X-A:2]" "[host: h]": accepted; both values under the canonical key, Host moved *)
+  provider_new_headers [] [[91;120;45;97;58;32;49;93]; [91;88;45;65;58;50;93]; [91;104;111;115;116;58;32;104;93]]%N
+    = NewOk [104]%N [([88;45;65]%N, [[49]%N; [50]%N])] /\
+  wf_header_entry [91;89;58;32;99;93]%N /\ ~ wf_header_entry [91;88;32;98;93]%N /\
+  (* weights -3 and 1 in an .hcl file: an error, not a panic *)
+  scenario_weights FHcl [(-3)%Z; 1%Z] = VErr /\ scenario_weights FYml [2%Z; 4%Z] = VOk [1%Z; 2%Z].
+Proof.
+  repeat split; try (vm_compute; reflexivity).
+  - apply header_entry_okb_iff. vm_compute. reflexivity.
+  - intros H. apply header_entry_okb_iff in H. vm_compute in H. discriminate.
+Qed.
 
 (* non-vacuity / regression witnesses of the repaired defects, evaluated in the model *)
 Definition ex_url13 (u : bytes) : option (bytes * bytes) := Some (u, []).
